@@ -225,6 +225,112 @@ func rulePAPrecedenceIn(w *World, c *Check, rule, fk string, fa *FuncAn) {
 			}
 		}
 	}
+	// A higher-precedence hint *determines* what it describes: a value that a lower-precedence hint
+	// may have set in an earlier iteration must not survive a later, higher-precedence hint of the
+	// same kind on any path that takes the hint (only the skip path — "a higher one was already
+	// seen" — leaves things alone). `if etypeID != info2.EType { et = … }` keeps, when the two are
+	// equal, whatever ETYPE-INFO put into et before: the result then depends on the order of the hints.
+	{
+		mayPass := func(v ssa.Value, phi *ssa.Phi) bool {
+			seen := map[ssa.Value]bool{}
+			var rec func(x ssa.Value) bool
+			rec = func(x ssa.Value) bool {
+				if x == ssa.Value(phi) {
+					return true
+				}
+				if seen[x] {
+					return false
+				}
+				seen[x] = true
+				if p, ok := x.(*ssa.Phi); ok {
+					for _, e := range p.Edges {
+						if rec(e) {
+							return true
+						}
+					}
+				}
+				return false
+			}
+			return rec(v)
+		}
+		// the skip edges of a region: a comparison of the PA type with a loop-carried precedence variable
+		skipTargets := func(R region) map[*ssa.BasicBlock]bool {
+			// blocks entered only on the skip edge; when the skip edge goes straight back to the loop
+			// head the guard block itself is the predecessor that carries the skip
+			out := map[*ssa.BasicBlock]bool{}
+			for _, cd := range fa.Conds {
+				if cd.Kind != "gt" || !(inRegion(cd.If.Block(), R) || (loopHeaderOf(cd.If.Block()) == header && cd.If.Block().Dominates(R.entry))) {
+					continue
+				}
+				bo, ok := stripNot(cd.If.Cond).(*ssa.BinOp)
+				if !ok {
+					continue
+				}
+				for _, o := range []ssa.Value{bo.X, bo.Y} {
+					if p, isPhi := stripConv(o).(*ssa.Phi); isPhi && p.Block() == header {
+						// the edge on which "already seen something higher" holds: P > type
+						t := cd.If.Block().Succs[1-cd.HoldsSucc]
+						if fullMatch(q(fa.R.R(p)), cd.L) {
+							t = cd.If.Block().Succs[cd.HoldsSucc]
+						}
+						if t == header {
+							out[cd.If.Block()] = true // marks the edge guard → head
+						} else {
+							out[t] = true
+						}
+					}
+				}
+			}
+			return out
+		}
+		for hi := 0; hi < len(regions); hi++ {
+			H := regions[hi]
+			skips := skipTargets(H)
+			for lo := hi + 1; lo < len(regions); lo++ {
+				L := regions[lo]
+				for _, ul := range updates[L.k] {
+					updatedInH := false
+					for _, uh := range updates[H.k] {
+						if uh.phi == ul.phi {
+							updatedInH = true
+						}
+					}
+					if !updatedInH {
+						continue
+					}
+					name := ul.phi.Comment
+					if name == "" {
+						name = ul.phi.Name()
+					}
+					stale := ""
+					for i, pr := range header.Preds {
+						if i >= len(ul.phi.Edges) || !inRegion(pr, H) {
+							continue
+						}
+						if !mayPass(ul.phi.Edges[i], ul.phi) {
+							continue
+						}
+						// the value can come through unchanged on this way back to the loop head: is
+						// that way the skip path only?
+						onSkipOnly := false
+						for sb := range skips {
+							if sb == pr {
+								onSkipOnly = true // the guard block's own edge to the head, or the skip block itself
+							} else if lastIf, isIf := lastInstr(sb).(*ssa.If); (!isIf || lastIf == nil) && sb.Dominates(pr) {
+								onSkipOnly = true // below a block entered only by skipping
+							}
+						}
+						if !onSkipOnly {
+							stale = w.Pos(InstrPos(lastInstr(pr)))
+						}
+					}
+					c.Decide(stale == "", rule, fk, fmt.Sprintf("%s: %s determines what %s set", name, paNames[H.k], paNames[L.k]), where,
+						fmt.Sprintf("when the %s hint is taken it sets %q on every path: a value left by an earlier %s hint does not survive it", paNames[H.k], name, paNames[L.k]),
+						fmt.Sprintf("the %s case can reach the next iteration at %s without assigning %q (a conditional assignment): what an earlier %s hint put there is used for the key, so the key depends on the order of the hints", paNames[H.k], stale, name, paNames[L.k]))
+				}
+			}
+		}
+	}
 	// the precedence variable(s) the guards compare with advance only for the three key-describing
 	// PA types: an unrelated, higher-numbered PA-data type must not make the loop skip the hints
 	{
